@@ -92,11 +92,17 @@ def ref_check_data(eng, w, name, meta_in, content, signer_kind):
     return rv
 
 
-def check_data(eng, name, meta_in, content, signer_kind, signer, form='list', name_obj=None):
+def check_data(eng, name, meta_in, content, signer_kind, signer, form='list', name_obj=None, meta_obj=None):
     """encode, check the wire with the reference reader, decode, compare. meta_in = None | dict"""
     enc = _lib()
     if meta_in is None:
         meta = None
+    elif meta_obj is not None:
+        # the caller keeps ONE MetaInfo object and re-assigns its fields between packets
+        meta = meta_obj
+        meta.content_type = meta_in['ct']
+        meta.freshness_period = meta_in['fp']
+        meta.final_block_id = meta_in['fbi']
     else:
         meta = enc.MetaInfo(content_type=meta_in['ct'], freshness_period=meta_in['fp'],
                             final_block_id=meta_in['fbi'])
@@ -549,7 +555,14 @@ def h_reuse(eng, case):
     for i, step in enumerate(case['seq']):
         P = {'cbp': False, 'mbf': False, 'nonce': eng.int('nonce', 0, 2 ** 32 - 1), 'lifetime': None, 'hop': None,
              'hints': []}
-        if step == 'data':
+        if step == 'data_meta':
+            # the same MetaInfo object for every packet, its fields re-assigned in between (a producer of segments)
+            if 'M' not in case:
+                case = dict(case, M=_lib().MetaInfo())
+            mi = {'ct': env.optional_int(eng, 'ct', 0, 2 ** 64 - 1), 'fp': env.optional_int(eng, 'fp', 0, 2 ** 64 - 1),
+                  'fbi': [None, eng.bytes('fbi', 1)][eng.choice(2, 'fbi?')]}
+            check_data(eng, name, mi, eng.bytes('c', 1), 'none', None, name_obj=L, meta_obj=case['M'])
+        elif step == 'data':
             check_data(eng, name, None, eng.bytes('c', 1), 'none', None, name_obj=L)
         elif step == 'data_sig':
             check_data(eng, name, None, eng.bytes('c', 1), 'digest', env.make_signer(eng, 'digest'), name_obj=L)
@@ -605,6 +618,7 @@ def cases(tier, seed):
         for seq in (['int_app', 'data'], ['int_app', 'int_plain'], ['int_sig', 'data_sig'], ['data', 'int_app', 'int_app'],
                     ['int_sig', 'int_plain', 'data']):
             cs.append(('reuse', {'shape': sh, 'seq': seq}))
+    cs.append(('reuse', {'shape': [[1, 1]], 'seq': ['data_meta', 'data_meta']}, {'weight': 30, 'split_depth': 4}))
     contents = [None, 0, 1, 2, 4] if quick else [None, 0, 1, 2, 3, 4, 6, 8]
     for sk in env.SIGNER_KINDS:
         for k in contents:
